@@ -85,7 +85,7 @@ class C04(Prop):
     quick_examples = 2000
     thorough_examples = 10000
     fuzz_runs = 15000
-    floors = {'history': 0.4, 'allow_and_refuse': 0.25, 'overlap': 0.1, 'boundary_gap': 0.15, 'window': 0.1}
+    floors = {'history': 0.4, 'allow_and_refuse': 0.25, 'overlap': 0.05, 'boundary_gap': 0.15, 'window': 0.07}
 
     def strategy(self, tier):
         gap = st.sampled_from(['0', '1ns', 'p-1ns', 'p', 'p+1ns', 'large', 'half'])
